@@ -1,3 +1,227 @@
-"""Positive controls: every rule family must fire on the deliberately broken fixture crate."""
-def run_all():
-    return 0
+"""Positive controls: the engine primitives the property rules are built from must report every `bad_*` function of
+fixtures/positive and stay silent on its `good_*` twin. Run by `./check --setup` and by every thorough run; a
+failure means the engine (extractor, CFG, slices, typestate, ...) is broken, so no verdict of that run is believed.
+
+The controls exercise engines, not the memvid-specific tables: the property modules name memvid functions, the
+fixture crate cannot stand in for those. What is validated here is that a rule *can* fire (expected-zero rules
+otherwise pass vacuously) and does not fire on the conforming twin."""
+import os, sys
+from . import extract, lib, effects, monotone, hirtree
+from .facts import Facts, op_place
+
+FIX = os.path.join(extract.VERIF, 'fixtures', 'positive')
+
+
+def _facts():
+    out = os.path.join(extract.BUILD, 'facts', 'positive.jsonl')
+    os.makedirs(os.path.dirname(out), exist_ok=True)
+    src = os.path.join(FIX, 'src', 'lib.rs')
+    drv = max(os.path.getmtime(p) for p in [src] + [os.path.join(extract.DRIVER_DIR, 'src', f) for f in os.listdir(os.path.join(extract.DRIVER_DIR, 'src'))])
+    if not os.path.exists(out) or os.path.getmtime(out) < drv:
+        for stale in (out, out + '.pkl'):
+            if os.path.exists(stale):
+                os.remove(stale)
+        with extract.Lock('fixture-lock'):
+            extract.extract_crate(FIX, 'positive', out)
+    return Facts(out)
+
+
+# ---------------------------------------------------------------- the controls: name -> predicate "is reported"
+def c_mpt(F, fn):
+    """an Ok exit not dominated by the success edge of append"""
+    apps = fn.calls_to('Store::append')
+    return any(not (ex.get('call') in apps) and not any(lib.call_success_dominates(fn, a, ex['bb']) for a in apps) for ex in fn.ok_exits())
+
+
+def c_sync(F, fn):
+    ts = effects.SyncTypestate(F)
+    ts.solve([fn])
+    return bool(ts.summ[fn.path][0])
+
+
+def c_flow(F, fn):
+    """the value returned by append (a sequence) reaches make_hit's id argument"""
+    app = fn.calls_to('Store::append')
+    for c in fn.calls_to('Store::make_hit'):
+        sl = lib.slice_back(fn, c.args[1:2], through_calls=True, at=(c.bb, None))
+        if any(a in sl.calls for a in app):
+            return True
+    return False
+
+
+def c_alloc(F, fn):
+    """an allocation sized by bytes read from the file without an upper-bound comparison on its path"""
+    for c in fn.calls():
+        if c.name in ('from_elem', 'with_capacity'):
+            size = c.args[1] if c.name == 'from_elem' else c.args[0]
+
+            def is_size(s, size=size, c=c):
+                return bool(s.locals & lib.slice_back(fn, [size], through_calls=True, at=(c.bb, None)).locals)
+            g = lib.find_guard(fn, c.bb, '<=', lambda s: any(x.name == 'from_le_bytes' for x in s.calls), lambda s: True)
+            if g is None:
+                return True
+    return False
+
+
+def c_capacity(F, fn):
+    """the capacity comparison must involve the incoming payload (its len) together with the usage counter"""
+    for cmp_ in lib.comparisons(fn):
+        a, b = cmp_.sa(), cmp_.sb()
+        if (a.has_field('Store', 'used') or b.has_field('Store', 'used')) and (a.has_field('Store', 'limit') or b.has_field('Store', 'limit')):
+            side = a if a.has_field('Store', 'used') else b
+            return not any(c.name == 'len' for c in side.calls)
+    return True
+
+
+def c_acl(F, fn):
+    """a hit is constructed before (not dominated by) the successful ACL call"""
+    acl = fn.calls_to('Store::acl')
+    return any(not any(lib.call_success_dominates(fn, a, c.bb) for a in acl) for c in fn.calls_to('Store::make_hit'))
+
+
+def c_shift(F, fn):
+    r = monotone.move_direction(fn, effects.is_memory_handle)
+    return len(r) == 1 and r[0]['ok'] is False
+
+
+def c_shift_good(F, fn):
+    r = monotone.move_direction(fn, effects.is_memory_handle)
+    return not (len(r) == 1 and r[0]['ok'] is True)
+
+
+def c_staged(F, fn):
+    """inner_commit called outside a closure passed to with_staging"""
+    staged = set()
+    for f in F.fns.values():
+        for c in f.calls_to('Store::with_staging'):
+            staged |= lib.slice_back(f, c.args[1:2], through_calls=False, at=(c.bb, None)).closures
+    bodies = [fn] + F.closures_of(fn)
+    return any(c.is_('Store::inner_commit') and not (b.is_closure and b.path in staged) for b in bodies for c in b.calls())
+
+
+def c_assert(F, fn):
+    from .c22 import ASSERT_MACROS
+    for c in fn.calls():
+        if set(c.t.get('mac') or c.t.get('macros') or []) & set(ASSERT_MACROS):
+            return True
+        if any(m.split('::')[-1].rstrip('!') in ASSERT_MACROS for m in (c.t.get('mac') or c.t.get('macros') or [])):
+            return True
+    return False
+
+
+def c_sorted(F, fn):
+    """partition_point on a vector pushed to after its last sort"""
+    st = None
+    order = sorted(fn.calls(), key=lambda c: c.bb)
+    for c in order:
+        if c.name.startswith('sort'):
+            st = 'sorted'
+        elif c.name == 'push':
+            st = 'unsorted'
+        elif c.name == 'partition_point':
+            return st != 'sorted'
+    return True
+
+
+def c_create(F, fn):
+    from .c19 import SIDECAR_MAKERS
+    for c in fn.calls():
+        if c.is_(('File::create', 'OpenOptions::open')):
+            sl = lib.slice_back(fn, [c.args[-1]], through_calls=True, at=(c.bb, None))
+            if any(x.name in SIDECAR_MAKERS for x in sl.calls):
+                return True
+    return False
+
+
+def c_variant(F, fn):
+    """an arm of the match on self's variant never reads the variant's payload"""
+    for vs in lib.variant_switches(fn):
+        for var, tb in vs['arms'].items():
+            used = False
+            for b in fn.reachable(tb) - {x for v2, t2 in vs['arms'].items() if v2 != var for x in ()}:
+                for s in fn.blocks[b]['s']:
+                    for o in lib.rv_operands(s['rv']):
+                        p = op_place(o)
+                        if p is not None and var in p.downcasts():
+                            used = True
+            # restrict to blocks only this arm reaches first: approximate by the arm's own block chain
+            own = fn.reachable(tb) - set().union(*[fn.reachable(t2) for v2, t2 in vs['arms'].items() if v2 != var] or [set()])
+            used_own = any(var in (op_place(o).downcasts() if op_place(o) is not None else ()) for b in own | {tb} for s in fn.blocks[b]['s'] for o in lib.rv_operands(s['rv']))
+            if not used_own:
+                return True
+    return False
+
+
+def c_sibling(F, fn):
+    ref = F.fn('sib_current')
+    return not hirtree.same(hirtree.norm(ref.r['hir']), hirtree.norm(fn.r['hir']))
+
+
+def c_rec(F, fn):
+    """self-recursion whose call site is not dominated by an edge of a comparison of the depth argument with a constant"""
+    for c in fn.calls():
+        if c.local_callee == fn.path:
+            for g, rel in lib.guards_holding_at(fn, c.bb):
+                a, b = g.sa(), g.sb()
+                if (2 in a.args and b.const_vals()) or (2 in b.args and a.const_vals()):
+                    return False
+            return True
+    return False
+
+
+def c_stamp(F, fn):
+    """the clock reaches written bytes other than as the default of the caller's Option"""
+    from .c23 import NONDET
+    for c in fn.calls():
+        if c.name == 'write_all':
+            sl = lib.slice_back(fn, c.args[1:2], through_calls=True, at=(c.bb, None))
+            if any(x.is_(NONDET) for x in sl.calls):
+                return True
+    return False
+
+
+CONTROLS = [
+    ('MPT  ok-exit dominance', 'Store::bad_ack', 'Store::good_ack', c_mpt),
+    ('FLOW sequence-to-frame-id', 'Store::bad_flow', 'Store::good_flow', c_flow),
+    ('GUARD acl-before-hit', 'Store::bad_acl', 'Store::good_acl', c_acl),
+    ('MONO memmove direction', 'Store::bad_shift', None, c_shift),
+    ('MONO memmove direction (twin)', None, 'Store::good_shift', c_shift_good),
+    ('WMC  closure provenance', 'Store::bad_staged', 'Store::good_staged', c_staged),
+    ('PROV sidecar path', 'bad_create', 'good_create', c_create),
+    ('AGREE sibling HIR trees', 'sib_different', 'sib_same', c_sibling),
+    ('FLOW clock-to-bytes', 'bad_stamp', 'good_stamp', c_stamp),
+    ('SYNC typestate (unsynced Ok)', 'Store::bad_sync', 'Store::good_sync', c_sync),
+    ('ALLOC file-derived size unbounded', 'Store::bad_alloc', 'Store::good_alloc', c_alloc),
+    ('PANIC assertion macro provenance', 'Store::bad_probe', 'Store::good_probe', c_assert),
+    ('TYPESTATE sorted at binary search', 'Store::bad_sorted', 'Store::good_sorted', c_sorted),
+    ('AGREE variant payload ignored', 'Index::bad_ids', 'Index::good_ids', c_variant),
+    ('REC  unbounded recursion', 'bad_rec', 'good_rec', c_rec),
+    ('COUPLE capacity uses incoming len', 'Store::bad_capacity', 'Store::good_capacity', c_capacity),
+]
+
+
+def run_all(verbose=True):
+    F = _facts()
+    bad = 0
+    n = 0
+    for name, b, g, pred in CONTROLS:
+        for key, want in ((b, True), (g, False)):
+            if key is None:
+                continue
+            n += 1
+            try:
+                fn = F.fn(key)
+                got = bool(pred(F, fn))
+            except Exception as e:            # an engine crash is a failed control
+                got = 'error: %r' % (e,)
+            okay = got is want
+            if not okay:
+                bad += 1
+            if verbose or not okay:
+                print('CONTROL %-36s %-22s expected %-8s got %-8s %s' % (name, key, 'report' if want else 'silent', {True: 'report', False: 'silent'}.get(got, got), 'ok' if okay else 'FAILED'))
+    print('CONTROLS %d/%d ok' % (n - bad, n))
+    return bad
+
+
+if __name__ == '__main__':
+    sys.exit(1 if run_all() else 0)
